@@ -231,8 +231,86 @@ func (P *Prog) sortedAfterLoop(fn *ssa.Function, hdr *ssa.BasicBlock, slices []s
 		_, nm := calleeName(ci.Common())
 		return nm == "sort.Strings" || nm == "sort.Slice" || nm == "sort.SliceStable" || nm == "sort.Sort" || nm == "sort.Stable" || nm == "sort.Ints"
 	}
-	reach, _, _ := ReachFromBlock(exit, isReturn, isSort, nil)
+	// the sort must be applied to (a value derived from) one of the collected slices: sorting another slice
+	// leaves the collected one in map order
+	set := map[ssa.Value]bool{}
+	for _, v := range slices {
+		set[v] = true
+	}
+	sortsCollected := func(in ssa.Instruction) bool {
+		if !isSort(in) {
+			return false
+		}
+		args := in.(ssa.CallInstruction).Common().Args
+		if len(args) == 0 {
+			return false
+		}
+		return len(slices) == 0 || derivesFromAny(args[0], set, map[ssa.Value]bool{}, 0)
+	}
+	reach, _, _ := ReachFromBlock(exit, isReturn, sortsCollected, nil)
 	return !reach
+}
+
+// derivesFromAny: v is one of the values in set, or is computed from one through phis, re-slicing, conversions,
+// interface boxing, or a local variable that one of them was stored into.
+func derivesFromAny(v ssa.Value, set, seen map[ssa.Value]bool, depth int) bool {
+	if v == nil || seen[v] || depth > 12 {
+		return false
+	}
+	seen[v] = true
+	if set[v] {
+		return true
+	}
+	switch x := v.(type) {
+	case *ssa.Phi:
+		for _, e := range x.Edges {
+			if derivesFromAny(e, set, seen, depth+1) {
+				return true
+			}
+		}
+	case *ssa.Slice:
+		return derivesFromAny(x.X, set, seen, depth+1)
+	case *ssa.Convert:
+		return derivesFromAny(x.X, set, seen, depth+1)
+	case *ssa.ChangeType:
+		return derivesFromAny(x.X, set, seen, depth+1)
+	case *ssa.MakeInterface:
+		return derivesFromAny(x.X, set, seen, depth+1)
+	case *ssa.ChangeInterface:
+		return derivesFromAny(x.X, set, seen, depth+1)
+	case *ssa.Call:
+		// append(s, …) keeps deriving from s
+		if b, ok := x.Call.Value.(*ssa.Builtin); ok && b.Name() == "append" && len(x.Call.Args) > 0 {
+			return derivesFromAny(x.Call.Args[0], set, seen, depth+1)
+		}
+		// the result of a helper introduced by a refactoring derives from what the helper returns
+		if h := staticCallee(&x.Call); h != nil && isNewHelperFn(h) {
+			for _, ret := range Returns(h) {
+				for _, res := range ret.Results {
+					if derivesFromAny(res, set, seen, depth+1) {
+						return true
+					}
+				}
+			}
+		}
+	case *ssa.Extract:
+		return derivesFromAny(x.Tuple, set, seen, depth+1)
+	case *ssa.UnOp:
+		if al, ok := x.X.(*ssa.Alloc); ok {
+			// another load of the same local variable as one of the collected slices
+			for m := range set {
+				if u, ok := m.(*ssa.UnOp); ok && u.X == ssa.Value(al) {
+					return true
+				}
+			}
+			for _, ref := range *al.Referrers() {
+				if st, ok := ref.(*ssa.Store); ok && st.Addr == ssa.Value(al) && derivesFromAny(st.Val, set, seen, depth+1) {
+					return true
+				}
+			}
+		}
+	}
+	return false
 }
 
 func checkC01(r *Run) {
@@ -340,7 +418,7 @@ func checkC01(r *Run) {
 	nRanges := 0
 	for _, f := range fns {
 		f := f
-		Instrs(f, func(in ssa.Instruction) {
+		InstrsRaw(f, func(in ssa.Instruction) {
 			rng, ok := in.(*ssa.Range)
 			if !ok {
 				return
@@ -350,7 +428,7 @@ func checkC01(r *Run) {
 			}
 			nRanges++
 			info := P.classifyMapRange(f, rng)
-			name := short(enclosingTop(f).String())
+			name := short(P.liftToPinned(f).String())
 			key := "map-range@" + short(f.String()) + ":" + P.TermAt(rng.X, rng).String()
 			switch info.class {
 			case "P0", "P1", "P2", "P3":
@@ -373,7 +451,7 @@ func checkC01(r *Run) {
 			continue
 		}
 		f := f
-		Instrs(f, func(in ssa.Instruction) {
+		InstrsRaw(f, func(in ssa.Instruction) {
 			rng, ok := in.(*ssa.Range)
 			if !ok {
 				return
@@ -383,7 +461,7 @@ func checkC01(r *Run) {
 			}
 			nWiring++
 			info := P.classifyMapRange(f, rng)
-			name := short(enclosingTop(f).String())
+			name := short(P.liftToPinned(f).String())
 			key := "map-range@" + short(f.String()) + ":" + P.TermAt(rng.X, rng).String()
 			switch info.class {
 			case "P0", "P1", "P2", "P3":
